@@ -28,6 +28,32 @@ Theorem C15_tree_roundtrip : forall ts n, build ts = Ok n -> to_tokens n = ts.
 Proof. exact tree_roundtrip. Qed.
 Print Assumptions C15_tree_roundtrip.
 
+(* SyntaxTreeNode(tokens).walk() follows stream order: it yields the tokens in the order of the stream - closing tokens, which
+   get no node of their own, left out; the children of an inline / image token directly after it, recursively - for every stream
+   whose tokens have nesting -1 / 0 / +1 and carry children only when unnested *)
+From MD Require Import Model.StateBlock Model.Block Lemmas.BlockKinds Lemmas.TreeWalk.
+Theorem C15_walk_follows_stream_order :
+  forall ts n, Forall wfw ts -> build ts = Ok n -> walk_tokens n = stream_walk_list ts.
+Proof. exact tree_walk_stream_order. Qed.
+Print Assumptions C15_walk_follows_stream_order.
+
+(* what [wfw] says, one level unfolded *)
+Theorem C15_wfw_means :
+  forall t, wfw t <-> (tnesting t = -1 \/ tnesting t = 0 \/ tnesting t = 1)
+                  /\ (tnesting t <> 0 -> tchildren t = None \/ tchildren t = Some [])
+                  /\ match tchildren t with Some l => Forall wfw l | None => True end.
+Proof. exact wfw_unfold. Qed.
+Print Assumptions C15_wfw_means.
+
+(* every stream the block parser returns, under every configuration with chains inside the registered rule set, builds into a
+   tree whose walk is the stream without its closing tokens, in order *)
+Theorem C15_block_parse_walk :
+  forall cfg rf cf, chains_sub cfg -> forall src env st,
+  block_parse cfg rf cf src env [] = Ok st ->
+  exists n, build (b_tokens st) = Ok n /\ walk_tokens n = filter (fun t => negb (tnesting t =? -1)) (b_tokens st).
+Proof. exact block_parse_tree_walk. Qed.
+Print Assumptions C15_block_parse_walk.
+
 (* rendering twice: same output, and the tokens left by the first render are a fixed point
    (the only write-back, the image alt attribute, is idempotent) *)
 Theorem C15_render_repeatable :
